@@ -163,6 +163,8 @@ func main() {
 		os.Exit(cmdCheck(os.Args[2:]))
 	case "funcs":
 		os.Exit(cmdFuncs(os.Args[2:]))
+	case "addnames":
+		os.Exit(cmdAddNames(os.Args[2:]))
 	case "replay":
 		os.Exit(cmdReplay(os.Args[2:]))
 	default:
